@@ -218,12 +218,30 @@ def main(argv=None):
     ap.add_argument("--jobs", type=int)
     ap.add_argument("--timeout", type=int, help="override the per-harness cap in seconds (debugging)")
     ap.add_argument("--list", action="store_true")
+    ap.add_argument("--compile", action="store_true", help="type-check the overlay with ALL harness files (no verification)")
     ap.add_argument("--no-evidence", action="store_true")
     args = ap.parse_args(argv)
     try:
         if args.replay:
             from replay import replay_file
             return replay_file(args.replay, keep=args.keep)
+        if args.compile:
+            files, harnesses = ov_mod.parse_harness_files()
+            scratch = "/var/tmp/masscanned-verif.compile.%d" % os.getpid()
+            os.makedirs(scratch, exist_ok=True)
+            try:
+                declared = set(k for h in harnesses.values() for k in h.known)
+                ov, src_hash, _ = ov_mod.build_overlay(scratch, files, (), declared)
+                ov_mod.dump_tables(ov, src_hash)
+                tgt = ov_mod.seed_kani_target(scratch)
+                rc, out, wall = sh(["cargo", "kani", "--target-dir", tgt, "-Z", "stubbing", "-Z", "unstable-options", "--no-codegen"],
+                                   cwd=ov, check=False, timeout=1800)
+                errs = [l for l in out.splitlines() if l.startswith("error")]
+                print("\n".join(out.splitlines()[-3:]) if rc == 0 else out[out.find("error"):][:6000])
+                log("compile check rc=%s in %.0fs (%d harnesses in %d files)" % (rc, wall, len(harnesses), len(files)))
+                return 0 if rc == 0 else 2
+            finally:
+                shutil.rmtree(scratch, ignore_errors=True)
         if args.list:
             files, harnesses = ov_mod.parse_harness_files()
             for pid in PROPS:
